@@ -50,6 +50,9 @@ structure St (N K : Type) where
 structure Cfg (N K : Type) where
   owner  : K → N               -- routing of a record key (RendezvousHash of the user id)
   fowner : K → N               -- routing of a shard (RendezvousHash of the shard id)
+  /-- the nodes that are started with the current server list (its members, and former members that
+  are started once more to hand their data over); the others are switched off and keep their disks -/
+  up     : N → Bool := fun _ => true
   cs     : Nat                 -- CHUNKSIZE
   trunc0 : Bool                -- receiver truncates the file at chunk 0 (repaired code); pinned code: false
   sum    : Content → Nat       -- FileHash
@@ -98,15 +101,15 @@ def replySum (sum : Content → Nat) (idx : Nat) (data file : Content) : Nat :=
 
 def enabled (cfg : Cfg N K) (s : St N K) : Label N K → Bool
   | .rsend src dst batch _ =>
-      src ≠ dst ∧ batch.all (fun k => cfg.owner k = dst ∧ (s.recs src k).isSome)
+      cfg.up src ∧ cfg.up dst ∧ src ≠ dst ∧ batch.all (fun k => cfg.owner k = dst ∧ (s.recs src k).isSome)
   | .rdelete src batch => batch.all (fun k => s.rconf src k)
   | .fchunk src k _ =>
       match s.files src k, progress (s.fph src k) with
-      | some c, some i => src ≠ cfg.fowner k ∧ i < (chunks cfg.cs c).length
+      | some c, some i => cfg.up src ∧ cfg.up (cfg.fowner k) ∧ src ≠ cfg.fowner k ∧ i < (chunks cfg.cs c).length
       | _, _ => false
   | .ffinal src k =>
       match s.files src k, progress (s.fph src k) with
-      | some c, some i => src ≠ cfg.fowner k ∧ i = (chunks cfg.cs c).length
+      | some c, some i => cfg.up src ∧ cfg.up (cfg.fowner k) ∧ src ≠ cfg.fowner k ∧ i = (chunks cfg.cs c).length
       | _, _ => false
   | .fremove src k => s.fph src k = .confirmed
   | .fail _ => true
@@ -170,7 +173,7 @@ def syncRecsTo (cfg : Cfg N K) (flt : Fault N K) (rkeys : List K) (n dst : N) (s
   if s.failed n ∨ dst = n then s else
   let batch := rkeys.filter (fun k => cfg.owner k = dst ∧ (s.recs n k).isSome)
   if batch.isEmpty then s
-  else if flt.down dst then step cfg (.fail n) s
+  else if flt.down dst ∨ cfg.up dst = false then step cfg (.fail n) s
   else if flt.lostReply = some dst then step cfg (.fail n) (step cfg (.rsend n dst batch false) s)
   else step cfg (.rdelete n batch) (step cfg (.rsend n dst batch true) s)
 
@@ -194,7 +197,7 @@ def syncFile (cfg : Cfg N K) (flt : Fault N K) (n : N) (k : K) (s : St N K) : St
   match s.files n k with
   | none => s
   | some c =>
-    if flt.down (cfg.fowner k) then step cfg (.fail n) s
+    if flt.down (cfg.fowner k) ∨ cfg.up (cfg.fowner k) = false then step cfg (.fail n) s
     else sendFrom cfg flt n k (chunks cfg.cs c).length 0 s
 
 /-- `Sync` at start-up of node `n`: phase 1 over all destinations, then phase 2 over all shard
@@ -208,5 +211,107 @@ def syncNode (cfg : Cfg N K) (flt : Fault N K) (nodes : List N) (rkeys fkeys : L
 /-- one failure-free round: every node of `order` runs `Sync` -/
 def round (cfg : Cfg N K) (nodes : List N) (rkeys fkeys : List K) (order : List N) (s : St N K) : St N K :=
   order.foldl (fun s n => syncNode cfg noFault nodes rkeys fkeys n s) s
+
+/-! ### histories over several server lists
+
+A *world* is a cluster state together with the current routing (`cfg.owner`, `cfg.fowner`, `cfg.up`)
+and the logical content of the database (ghost): `ro k` / `fo k` is the record / shard file `k` as
+it was last written through the cluster API — by the node that was its routing owner at that
+moment.  That is "the original" of the property when copies on several nodes differ.
+
+Events: an event of a start-up synchronisation under the current list (`sync`, failures included);
+a change of the server list (`reconf`: new routing, new set of started nodes; every started node is
+a fresh process, nodes outside `up` keep their disks untouched and may come back later — this is
+how a rolled-back change leaves OLDER copies behind); a client write of a collection record
+(`wrec`: created, shard id appended, deleted, re-created) or of a shard file (`wfile`: points
+inserted, shard created, collection deleted), executed at the current routing owner. -/
+
+structure World (N K : Type) where
+  cfg : Cfg N K
+  st  : St N K
+  ro  : K → Option Content
+  fo  : K → Option Content
+
+inductive Ev (N K : Type) where
+  | sync (l : Label N K)
+  | reconf (owner fowner : K → N) (up : N → Bool)
+  | wrec (k : K) (v : Option Content)
+  | wfile (k : K) (c : Option Content)
+
+/-- every process is new after a change of the server list -/
+def clearAll (s : St N K) : St N K :=
+  { s with rconf := fun _ _ => false, fph := fun _ _ => .idle, failed := fun _ => false }
+
+def wstep : Ev N K → World N K → World N K
+  | .sync l, w => { w with st := step w.cfg l w.st }
+  | .reconf o f u, w => { w with cfg := { w.cfg with owner := o, fowner := f, up := u }, st := clearAll w.st }
+  | .wrec k v, w =>
+      { w with st := { w.st with recs := upd w.st.recs (w.cfg.owner k) k v },
+               ro := fun k' => if k' = k then v else w.ro k' }
+  | .wfile k c, w =>
+      { w with st := { w.st with files := upd w.st.files (w.cfg.fowner k) k c },
+               fo := fun k' => if k' = k then c else w.fo k' }
+
+/-- A change of the server list the synchronisation can cope with (the state is the one at the moment
+of the change, `o f u` the new routing):
+(a) a copy that differs from the current content (an OLDER record, the left-over of an interrupted
+    transfer, a copy of something deleted) and sits on a node that will be started, sits at the new
+    owner — where the transfer of the current content replaces it; anywhere else the start-up
+    synchronisation would ship it to the owner as if it were current;
+(b) the current content is on a node that will be started;
+(c) at most one started node other than the new owner holds a given shard. -/
+structure Safe (w : World N K) (o f : K → N) (u : N → Bool) : Prop where
+  ra : ∀ n k v, u n = true → w.st.recs n k = some v → w.ro k ≠ some v → n = o k
+  rb : ∀ k v, w.ro k = some v → ∃ n, u n = true ∧ w.st.recs n k = some v
+  fa : ∀ n k c, u n = true → w.st.files n k = some c → w.fo k ≠ some c → n = f k
+  fb : ∀ k c, w.fo k = some c → ∃ n, u n = true ∧ w.st.files n k = some c
+  fc : ∀ n n' k, u n = true → u n' = true → n ≠ f k → n' ≠ f k →
+        (w.st.files n k).isSome → (w.st.files n' k).isSome → n = n'
+
+/-- a client write of record `k` happens while the cluster serves, i.e. after every started node
+completed its `Sync`: no started node other than the owner holds a copy, and the owner runs -/
+def QuietR (w : World N K) (k : K) : Prop :=
+  w.cfg.up (w.cfg.owner k) = true ∧ ∀ n, w.cfg.up n = true → n ≠ w.cfg.owner k → w.st.recs n k = none
+
+def QuietF (w : World N K) (k : K) : Prop :=
+  w.cfg.up (w.cfg.fowner k) = true ∧ ∀ n, w.cfg.up n = true → n ≠ w.cfg.fowner k → w.st.files n k = none
+
+/-- histories: any interleaving of synchronisation events, safe list changes and client writes -/
+inductive WReach (w0 : World N K) : World N K → Prop where
+  | init : WReach w0 w0
+  | sync (l : Label N K) {w : World N K} : WReach w0 w → WReach w0 (wstep (.sync l) w)
+  | reconf (o f : K → N) (u : N → Bool) {w : World N K} : WReach w0 w → Safe w o f u →
+      WReach w0 (wstep (.reconf o f u) w)
+  | wrec (k : K) (v : Option Content) {w : World N K} : WReach w0 w → QuietR w k →
+      WReach w0 (wstep (.wrec k v) w)
+  | wfile (k : K) (c : Option Content) {w : World N K} : WReach w0 w → QuietF w k → c ≠ some [] →
+      WReach w0 (wstep (.wfile k c) w)
+
+/-! executable versions of `Safe` / `QuietR` / `QuietF` over explicit node and key lists (driver) -/
+
+def safeB (w : World N K) (o f : K → N) (u : N → Bool) (nodes : List N) (rkeys fkeys : List K) : Bool :=
+  (rkeys.all fun k =>
+    (nodes.all fun n => !(u n) || (match w.st.recs n k with
+        | some v => decide (w.ro k = some v) || decide (n = o k)
+        | none => true)) &&
+    (match w.ro k with
+      | some v => nodes.any fun n => u n && decide (w.st.recs n k = some v)
+      | none => true)) &&
+  (fkeys.all fun k =>
+    (nodes.all fun n => !(u n) || (match w.st.files n k with
+        | some c => decide (w.fo k = some c) || decide (n = f k)
+        | none => true)) &&
+    (match w.fo k with
+      | some c => nodes.any fun n => u n && decide (w.st.files n k = some c)
+      | none => true) &&
+    (nodes.all fun n => nodes.all fun n' =>
+      !(u n && u n' && decide (n ≠ f k) && decide (n' ≠ f k) &&
+        (w.st.files n k).isSome && (w.st.files n' k).isSome) || decide (n = n')))
+
+def quietRB (w : World N K) (nodes : List N) (k : K) : Bool :=
+  w.cfg.up (w.cfg.owner k) && nodes.all fun n => !(w.cfg.up n) || decide (n = w.cfg.owner k) || (w.st.recs n k).isNone
+
+def quietFB (w : World N K) (nodes : List N) (k : K) : Bool :=
+  w.cfg.up (w.cfg.fowner k) && nodes.all fun n => !(w.cfg.up n) || decide (n = w.cfg.fowner k) || (w.st.files n k).isNone
 
 end Sema.C14
